@@ -17,6 +17,9 @@ import TetlProofs.C06.Copy
 import TetlProofs.C06.Unique
 import TetlProofs.C06.Partition
 import TetlProofs.C06.Search
+import TetlProofs.C06.Gnome
+import TetlProofs.C06.Bubble
+import TetlProofs.C06.Insertion
 namespace Tetl.C06.Props
 open Tetl Tetl.C06
 variable {α : Type}
@@ -617,5 +620,73 @@ theorem findEnd_eq (pred : α → α → Bool) (P R S s : List α) :
 theorem searchN_eq (pred : α → α → Bool) (P R S : List α) (count : Int) (v : α) :
     searchN pred (P ++ R ++ S) P.length (P.length + R.length) count v = .ok (P.length + Spec.searchN pred R count v) :=
   searchN_spec pred P R S count v
+
+/-! ## sorting: sort = gnome_sort, nth_element, partial_sort, bubble_sort, exchange_sort
+    (hypothesis: `comp` induces a strict weak ordering, [alg.sorting]/3) -/
+
+/-- gnome_sort: the back-and-forth loop terminates within the model's fuel (measure: 2·inversions + distance to
+    `last`), never touches anything outside the range and leaves a sorted permutation of the input -/
+theorem gnomeSort_eq (lt : α → α → Bool) (hlt : StrictWeak lt) (P R S : List α) :
+    ∃ R', gnomeSort lt (P ++ R ++ S) P.length (P.length + R.length) = .ok (P ++ R' ++ S)
+        ∧ R'.Perm R ∧ Sorted lt R' :=
+  gnomeSort_spec lt hlt P R S
+example : StrictWeak (fun x y : Nat => decide (x < y)) := strictWeak_nat
+
+/-- `sort` is gnome_sort -/
+theorem sort_eq (lt : α → α → Bool) (hlt : StrictWeak lt) (P R S : List α) :
+    ∃ R', sort lt (P ++ R ++ S) P.length (P.length + R.length) = .ok (P ++ R' ++ S)
+        ∧ R'.Perm R ∧ Sorted lt R' :=
+  gnomeSort_spec lt hlt P R S
+example : StrictWeak (fun x y : Nat => decide (x < y)) := strictWeak_nat
+
+/-- nth_element sorts the whole range here: a sorted permutation satisfies [alg.nth.element] for every `nth` -/
+theorem nthElement_eq (lt : α → α → Bool) (hlt : StrictWeak lt) (P R S : List α) (nth : Nat) :
+    ∃ R', nthElement lt (P ++ R ++ S) P.length nth (P.length + R.length) = .ok (P ++ R' ++ S)
+        ∧ R'.Perm R ∧ Sorted lt R' :=
+  nthElement_spec lt hlt P R S nth
+example : StrictWeak (fun x y : Nat => decide (x < y)) := strictWeak_nat
+
+/-- partial_sort sorts the whole range here: a sorted permutation satisfies [partial.sort] for every `middle` -/
+theorem partialSort_eq (lt : α → α → Bool) (hlt : StrictWeak lt) (P R S : List α) (mid : Nat) :
+    ∃ R', partialSort lt (P ++ R ++ S) P.length mid (P.length + R.length) = .ok (P ++ R' ++ S)
+        ∧ R'.Perm R ∧ Sorted lt R' :=
+  partialSort_spec lt hlt P R S mid
+example : StrictWeak (fun x y : Nat => decide (x < y)) := strictWeak_nat
+
+theorem bubbleSort_eq (lt : α → α → Bool) (hlt : StrictWeak lt) (P R S : List α) :
+    ∃ R', bubbleSort lt (P ++ R ++ S) P.length (P.length + R.length) = .ok (P ++ R' ++ S)
+        ∧ R'.Perm R ∧ Sorted lt R' :=
+  bubbleSort_spec lt hlt P R S
+example : StrictWeak (fun x y : Nat => decide (x < y)) := strictWeak_nat
+
+theorem exchangeSort_eq (lt : α → α → Bool) (hlt : StrictWeak lt) (P R S : List α) :
+    ∃ R', exchangeSort lt (P ++ R ++ S) P.length (P.length + R.length) = .ok (P ++ R' ++ S)
+        ∧ R'.Perm R ∧ Sorted lt R' :=
+  exchangeSort_spec lt hlt P R S
+example : StrictWeak (fun x y : Nat => decide (x < y)) := strictWeak_nat
+
+/-! ## stable sorting: stable_sort = insertion_sort -/
+
+/-- insertion_sort: exactly the stable sorted permutation (`List.mergeSort`, the unique sorted permutation that keeps
+    equivalent elements in their original order), context untouched -/
+theorem insertionSort_eq (lt : α → α → Bool) (hlt : StrictWeak lt) (P R S : List α) :
+    insertionSort lt (P ++ R ++ S) P.length (P.length + R.length) = .ok (P ++ Spec.stableSort lt R ++ S) :=
+  insertionSort_spec lt hlt P R S
+example : StrictWeak (fun x y : Nat => decide (x < y)) := strictWeak_nat
+
+theorem stableSort_eq (lt : α → α → Bool) (hlt : StrictWeak lt) (P R S : List α) :
+    stableSort lt (P ++ R ++ S) P.length (P.length + R.length) = .ok (P ++ Spec.stableSort lt R ++ S) :=
+  insertionSort_spec lt hlt P R S
+example : StrictWeak (fun x y : Nat => decide (x < y)) := strictWeak_nat
+
+/-- what the spec of the stable sorts means: a sorted permutation in which every class of equivalent elements
+    appears in its original order — and it is the only such list -/
+theorem stableSort_characterisation (lt : α → α → Bool) (hlt : StrictWeak lt) (R : List α) :
+    (Spec.stableSort lt R).Perm R ∧ Sorted lt (Spec.stableSort lt R)
+    ∧ (∀ x, (Spec.stableSort lt R).filter (Spec.equiv lt x) = R.filter (Spec.equiv lt x))
+    ∧ (∀ L : List α, L.Perm R → Sorted lt L → (∀ x, L.filter (Spec.equiv lt x) = R.filter (Spec.equiv lt x)) →
+        L = Spec.stableSort lt R) :=
+  ⟨stableSort_perm lt R, stableSort_sorted hlt R, stableSort_filter hlt R, fun L hp hs hf => stableSort_unique hlt L R hp hs hf⟩
+example : StrictWeak (fun x y : Nat => decide (x < y)) := strictWeak_nat
 
 end Tetl.C06.Props
